@@ -125,6 +125,72 @@ SphLon12(lat1, azi, s) ==
 \* "The value of lon2 returned is in the range [-180, 180]": both signs of 180 admitted
 NormSet(x) == LET r == Reduce(x) IN IF r = -180 THEN {-180, 180} ELSE {r}
 
+(* ------------------------------------------------- output masks, call forms *)
+(* Rhumb::mask / RhumbLine::mask ("RhumbLine::mask is a duplication of this enum") *)
+(* have six bits.  They are numbered here 0..5 in the order LATITUDE, LONGITUDE,   *)
+(* AZIMUTH, DISTANCE, AREA, LONG_UNROLL and a mask is exchanged with the driver as *)
+(* the integer sum of 2^i; the driver translates it with the enum constants of the *)
+(* class it calls.  "outmask: a bitor'ed combination of Rhumb::mask values         *)
+(* specifying which of the following parameters should be set": an output argument *)
+(* is written iff its bit is in the mask (rule WrittenIffRequested, as for the     *)
+(* geodesic classes in GeodLine.tla) and its value does not depend on which other  *)
+(* outputs are requested.  LONG_UNROLL selects the form of lon2 only.              *)
+BLAT == 0  BLON == 1  BAZI == 2  BDIST == 3  BAREA == 4  BUNROLL == 5
+MaskBits == 0..5
+MaskSet(m) == {i \in MaskBits : (m \div (2 ^ i)) % 2 = 1}
+RECURSIVE MaskNum(_)
+MaskNum(S) == IF S = {} THEN 0 ELSE LET i == CHOOSE x \in S : TRUE IN (2 ^ i) + MaskNum(S \ {i})
+\* "ALL: Calculate everything.  (LONG_UNROLL is not included in this mask.)"
+AllMask == {BLAT, BLON, BAZI, BDIST, BAREA}
+
+(* Call forms.  The general routines take a mask; "Rhumb::Direct is defined in     *)
+(* terms of this function", "RhumbLine::Position is defined in terms of this       *)
+(* function", "Rhumb::Inverse is defined in terms of this function": every other   *)
+(* member is an overload of a general routine, named here by the number of its     *)
+(* output arguments ("... returning also the area" = 3, "... without the area" = 2)*)
+DirectForms == {"GenDirect", "GenPosition", "Direct3", "Direct2", "Position3", "Position2"}
+InverseForms == {"GenInverse", "Inverse3", "Inverse2"}
+Forms == DirectForms \cup InverseForms
+General(form) == form \in {"GenDirect", "GenPosition", "GenInverse"}
+GeneralOf(form) ==
+  CASE form \in {"GenDirect", "Direct3", "Direct2"} -> "GenDirect"
+    [] form \in {"GenPosition", "Position3", "Position2"} -> "GenPosition"
+    [] OTHER -> "GenInverse"
+\* the output arguments in the signature of a form
+Args(form) ==
+  CASE form \in {"GenDirect", "GenPosition", "Direct3", "Position3"} -> {BLAT, BLON, BAREA}
+    [] form \in {"Direct2", "Position2"} -> {BLAT, BLON}
+    [] form \in {"GenInverse", "Inverse3"} -> {BDIST, BAZI, BAREA}
+    [] form = "Inverse2" -> {BDIST, BAZI}
+\* the quantities a family can return at all (the other bits of a mask are without effect)
+Outputs(form) == IF form \in DirectForms THEN {BLAT, BLON, BAREA} ELSE {BDIST, BAZI, BAREA}
+(* The mask a call stands for.  An overload requests exactly its output arguments  *)
+(* and never unrolls: "The value of lon2 returned is in the range [-180, 180]" is  *)
+(* stated for Direct and Position; only the general routines document LONG_UNROLL. *)
+FormMask(form, m) == IF General(form) THEN MaskSet(m) ELSE Args(form)
+Written(form, m) == FormMask(form, m) \cap Outputs(form)
+Unrolled(form, m) == BUNROLL \in FormMask(form, m)
+
+(* Observation of one output argument after a call whose outputs were preset to a  *)
+(* sentinel: -1 = the form has no such argument, otherwise the sum of              *)
+(*   1  the argument still holds the sentinel                                      *)
+(*   2  bit-identical to the result of the general routine called with ALL         *)
+(*   4  bit-identical to the result of the general routine with ALL + LONG_UNROLL  *)
+(*   8  finite and outside [-180, 180]                                             *)
+CodeHas(c, b) == c >= 0 /\ (c \div b) % 2 = 1
+ArgSet(form, m, bit, c) ==
+  IF bit \notin Args(form) THEN c = -1 ELSE c >= 0 /\ (CodeHas(c, 1) = (bit \notin Written(form, m)))
+ArgVal(form, m, bit, c) ==
+  (bit \in Args(form) /\ bit \in Written(form, m)) =>
+     IF bit = BLON /\ Unrolled(form, m) THEN CodeHas(c, 4) ELSE CodeHas(c, 2)
+ArgRange(form, m, bit, c) ==
+  (bit = BLON /\ bit \in Written(form, m) /\ ~Unrolled(form, m)) => ~CodeHas(c, 8)
+\* order of the codes in a record: <<lat2, lon2, S12>> resp. <<s12, azi12, S12>>
+ArgBits(form) == IF form \in DirectForms THEN <<BLAT, BLON, BAREA>> ELSE <<BDIST, BAZI, BAREA>>
+FormSet(form, m, o) == Len(o) = 3 /\ \A i \in 1..3 : ArgSet(form, m, ArgBits(form)[i], o[i])
+FormVal(form, m, o) == Len(o) = 3 /\ \A i \in 1..3 : ArgVal(form, m, ArgBits(form)[i], o[i])
+FormRange(form, m, o) == Len(o) = 3 /\ \A i \in 1..3 : ArgRange(form, m, ArgBits(form)[i], o[i])
+
 (* -------------------------------------------------------------- pico limbs *)
 \* |<<hi, lo>> - <<ehi, elo>>| <= tol (pico units), both limbs carrying the sign of the value
 NearP(A, E, tol) ==
